@@ -147,7 +147,7 @@ pub fn c03_meta(tier: Tier) -> Meta {
     let (dense, nmax, cases) = c03_params(tier);
     basic(
         format!(
-            "Well-shaped calls: every n in 0..={dense} x 4 planners x f32/f64 x 2 directions x 4 entry points x chunk counts cycling through 1..8, plus {cases} proptest-drawn structured lengths up to {nmax} (every AVX radix x every row residue mod 4, Rader/Bluestein primes, prime powers, smooth numbers ...) x chunks 1..8, plus EVERY prime with 11-smooth p-1 (AVX2 Rader) and with 23-smooth p-1 (portable Rader) up to 2^19 (quick) / 2^21 (thorough), plus ~100 landmark lengths up to 2^21 / 2^22 (powers of two, 3*2^k, 5*2^k, large prime powers, primes next to powers of two, radix-N lengths with many layers, multi-million semiprimes). Every caller-visible buffer (data, output, scratch of EXACTLY the advertised length) lives in its own mmap'ed region flush against a PROT_NONE guard page (end-flush orientation, and start-flush orientation for a second pass), so a one-element over-read or over-write in the optimised build is a SIGSEGV in the worker, which the parent turns into a violation with a shrunk replay; a third pass places every buffer HALF an element off a page boundary (the weakest alignment a safe caller may pass: 4 bytes for Complex<f32>, 8 for Complex<f64>), so an alignment-assuming SIMD load/store faults. \
+            "Well-shaped calls: every n in 0..={dense} x 4 planners x f32/f64 x 2 directions x 4 entry points x chunk counts cycling through 1..8, plus {cases} proptest-drawn structured lengths up to {nmax} (every AVX radix x every row residue mod 4, Rader/Bluestein primes, prime powers, smooth numbers ...) x chunks 1..8, plus EVERY prime with 11-smooth p-1 (AVX2 Rader) and with 23-smooth p-1 (portable Rader) up to 2^19 / 2^21 (AVX) and 2^17 / 2^19 (portable), plus ~70 landmark lengths up to 2^18 (and 5*2^19, 3^12, 5^8, 262501, 2^20) / ~110 up to 2^22 (powers of two, 3*2^k, 5*2^k, large prime powers, primes next to powers of two, radix-N lengths with many layers, multi-million semiprimes). Every caller-visible buffer (data, output, scratch of EXACTLY the advertised length) lives in its own mmap'ed region flush against a PROT_NONE guard page (end-flush orientation, and start-flush orientation for a second pass), so a one-element over-read or over-write in the optimised build is a SIGSEGV in the worker, which the parent turns into a violation with a shrunk replay; a third pass places every buffer HALF an element off a page boundary (the weakest alignment a safe caller may pass: 4 bytes for Complex<f32>, 8 for Complex<f64>), so an alignment-assuming SIMD load/store faults. \
              Ill-shaped calls: the C09 shape matrix for n <= 64 and sampled lengths, same guard-paged buffers; must end in a panic, never a fault. \
              The same cases also run on a build with debug assertions and overflow checks, where rustfft's 28 bounds debug_assert!s in its unsafe accessors turn an index error into a panic that is classified as an out-of-bounds witness. \
              Transforms assembled from public constructors are covered by C12 with the same check. Thorough adds libFuzzer targets under AddressSanitizer (see fuzz/). \
@@ -226,13 +226,17 @@ pub fn c03_worker(ctx: &mut Ctx) {
     // computed by vector modular arithmetic) and every prime with 23-smooth p-1 (portable Rader)
     {
         // landmark lengths up to 2^21 (quick) / 2^22 (thorough): a guarded call needs no reference, so these are cheap
-        let marks = crate::gen::landmark_lengths(ctx.tier.pick(20u32, 21), true);
+        let mut marks = crate::gen::landmark_lengths(ctx.tier.pick(18u32, 21), ctx.tier == Tier::Thorough);
+        if ctx.tier == Tier::Quick {
+            marks.extend([5usize << 19, 531441, 390625, 262501, 1 << 20]);
+        }
         for (i, &n) in marks.iter().enumerate().rev() {
             for (pi, planner) in [Planner::Scalar, Planner::Sse, Planner::Avx].iter().enumerate() {
                 if !ctx.mine() {
                     continue;
                 }
-                if n > 1 << 21 && ctx.tier == Tier::Quick && (i + pi) % 3 != 0 {
+                // the debug-assertion build keeps to the moderate sizes
+                if is_chk && n > 1 << 16 {
                     continue;
                 }
                 let ty = TYS[(i + pi) % 2];
@@ -247,8 +251,10 @@ pub fn c03_worker(ctx: &mut Ctx) {
         let fams = Families::new(bound);
         for (fname, planners) in [("prime_rader_11smooth", [Planner::Avx, Planner::Auto]), ("prime_rader_23smooth", [Planner::Scalar, Planner::Sse])] {
             let list: Vec<usize> = fams.fams.iter().find(|f| f.0 == fname).map(|f| f.1.clone()).unwrap_or_default();
+            // the portable Rader (scalar/SSE planners) is several times slower: bound 2^17 (quick) / 2^20 (thorough) there
+            let fam_bound = if fname == "prime_rader_23smooth" { bound / 4 } else { bound };
             for &q in list.iter().rev() {
-                if q <= dense || !ctx.mine() {
+                if q <= dense || q > fam_bound || !ctx.mine() || (is_chk && q > 1 << 15) {
                     continue;
                 }
                 for (pi, planner) in planners.iter().enumerate() {
